@@ -325,7 +325,22 @@ pub struct Pred {
     /// number of units whose header resolved to a node
     pub resolved_units: usize,
     pub why_not_structural: Option<String>,
+    /// Further, equally acceptable predictions, for the places where no property fixes which of
+    /// two behaviours the library shows (see `predict_obs`): whether the handler of the unit at
+    /// which a fixed-capacity buffer overflows in the unit separator is entered, and whether a
+    /// read-and-clear query whose response could not be delivered has consumed what it read.
+    pub alts: Vec<Pred>,
+    /// (internal) this prediction passed a point where the framing discipline / the fate of an
+    /// undelivered read matters
+    pub alt_wanted: u8,
 }
+
+/// variant flags of `predict_with`
+pub const V_LAZY: u8 = 1; // unit separator written with the unit's first byte
+pub const V_KEEP: u8 = 2; // an undelivered read-and-clear query consumed nothing
+pub const V_OPCQ: u8 = 4; // `*OPC` sets its bit without leaving a -800 item in the queue
+pub const V_LAZYC: u8 = 8; // like V_LAZY, but written at the unit's first header/data call (even an empty one)
+
 
 enum Conv {
     Val(u64),
@@ -492,6 +507,13 @@ struct Interp<'a> {
     calls: Vec<ExpCall>,
     unit_text: Vec<Option<Vec<u8>>>,
     executed: Vec<(usize, Contrib, bool)>,
+    /// alternative framing discipline: the unit separator is written together with the first
+    /// byte of the unit (a unit without output leaves no trace) instead of before the handler
+    lazy: bool,
+    pending_sep: bool,
+    opc_quiet: bool,
+    opc_seen: bool,
+    lazy_call: bool,
 }
 
 enum UnitEnd {
@@ -504,9 +526,30 @@ enum UnitEnd {
 
 impl<'a> Interp<'a> {
     fn begin_response_unit(&mut self) {
-        if !self.out.is_empty() {
+        if self.lazy {
+            self.pending_sep = !self.out.is_empty();
+        } else if !self.out.is_empty() {
             self.out.push(b';');
         }
+    }
+
+    /// the handler makes a header/data call
+    fn touch(&mut self) {
+        if self.lazy_call && self.pending_sep {
+            self.pending_sep = false;
+            self.out.push(b';');
+        }
+    }
+
+    fn write(&mut self, text: &[u8]) {
+        if text.is_empty() {
+            return;
+        }
+        if self.pending_sep {
+            self.pending_sep = false;
+            self.out.push(b';');
+        }
+        self.out.extend_from_slice(text);
     }
 
     fn not_structural(&mut self, why: &str) {
@@ -622,6 +665,9 @@ impl<'a> Interp<'a> {
         }
         if u.query {
             let mut text: Vec<u8> = Vec::new();
+            if !plan.hdr.is_empty() || !plan.data.is_empty() {
+                self.touch();
+            }
             for (k, hd) in plan.hdr.iter().enumerate() {
                 if k > 0 {
                     text.push(b':');
@@ -647,18 +693,18 @@ impl<'a> Interp<'a> {
                     Ok(t) => text.extend_from_slice(&t),
                     Err(e) => {
                         // the datum itself cannot be formatted: handler's finish returns that
-                        self.out.extend_from_slice(&text);
+                        self.write(&text);
                         self.calls.push(call);
                         return UnitEnd::FailByHandler(ExpErr::Exact(e));
                     }
                 }
                 if let Some(e) = fail_at(Phase::AfterDatum(k)) {
-                    self.out.extend_from_slice(&text);
+                    self.write(&text);
                     self.calls.push(call);
                     return UnitEnd::FailByHandler(e);
                 }
             }
-            self.out.extend_from_slice(&text);
+            self.write(&text);
             self.unit_text[i] = Some(text);
         }
         self.calls.push(call);
@@ -674,7 +720,7 @@ impl<'a> Interp<'a> {
     }
 
     fn respond(&mut self, i: usize, text: Vec<u8>) {
-        self.out.extend_from_slice(&text);
+        self.write(&text);
         self.unit_text[i] = Some(text);
     }
 
@@ -800,7 +846,11 @@ impl<'a> Interp<'a> {
                     }
                     Contrib::Opc => {
                         self.st.esr |= 0x01;
-                        self.st.queue.push(opc_event());
+                        // SCPI-99 21.8.7: queueing the -800 event is optional
+                        self.opc_seen = true;
+                        if !self.opc_quiet {
+                            self.st.queue.push(opc_event());
+                        }
                     }
                     Contrib::Rst | Contrib::Wai => {}
                     Contrib::StatPreset => {
@@ -837,6 +887,94 @@ pub fn spec_obs(s: &ErrSpec) -> ErrObs {
 /// Predict what executing `msg` does to a device in state `st` (controller `ctl`'s MAV taken
 /// from `st.outq`). Formatter capacity `cap` (None = unbounded).
 pub fn predict(root: &MNode, st: &ModelState, step: &SendStep, reading: Reading) -> Pred {
+    let mut p = predict_with(root, st, step, reading, 0);
+    let mut wanted = p.alt_wanted;
+    if wanted != 0 {
+        // all combinations of the choices that matter for this message (a choice may make a
+        // further one matter: iterate to the fixpoint)
+        loop {
+            let mut alts = Vec::new();
+            let mut more = wanted;
+            if wanted & V_LAZY != 0 {
+                wanted |= V_LAZYC;
+                more |= V_LAZYC;
+            }
+            for m in 1u8..16 {
+                if m & !wanted != 0 || (m & V_LAZY != 0 && m & V_LAZYC != 0) {
+                    continue;
+                }
+                let a = predict_with(root, st, step, reading, m);
+                more |= a.alt_wanted;
+                alts.push(a);
+            }
+            if more == wanted {
+                p.alts = alts;
+                break;
+            }
+            wanted = more;
+        }
+    }
+    p
+}
+
+/// The prediction that fits what was observed: `predict`, or one of its alternatives where the
+/// observation (number of handler invocations, device state afterwards, response) fits that one
+/// and not the primary. Either is acceptable to every claimed property; everything else is then
+/// checked against the chosen one.
+pub fn predict_obs(root: &MNode, st: &ModelState, step: &SendStep, reading: Reading, sim_calls: usize, result: &Result<(), ErrObs>, out: &[u8], now: &ModelState) -> Pred {
+    let mut p = predict(root, st, step, reading);
+    if p.alts.is_empty() || !p.structural {
+        return p;
+    }
+    let alts = std::mem::take(&mut p.alts);
+    let fits = |q: &Pred| {
+        if !q.structural || q.calls.len() != sim_calls {
+            return false;
+        }
+        let res_ok = match (&q.result, result) {
+            (Ok(()), Ok(())) => true,
+            (Err(x), Err(e)) => x.accepts(e),
+            _ => false,
+        };
+        if !res_ok {
+            return false;
+        }
+        if q.state_known {
+            let mut e = q.state.clone();
+            if let Err(x) = result {
+                e.record_error(x);
+            }
+            let reg_eq = |a: &RegModel, b: &RegModel| a.event == b.event && a.enable == b.enable && a.ptr == b.ptr && a.ntr == b.ntr && (a.cond_unknown || a.cond == b.cond);
+            if !(e.esr == now.esr && e.ese == now.ese && e.sre == now.sre && e.queue.items == now.queue.items && reg_eq(&e.oper, &now.oper) && reg_eq(&e.ques, &now.ques)) {
+                return false;
+            }
+        }
+        match (&q.out, result) {
+            (Some(o), Ok(())) => o.as_slice() == out,
+            _ => true,
+        }
+    };
+    if fits(&p) {
+        return p;
+    }
+    let dbg = std::env::var("VERIF_DEBUG").is_ok();
+    for (k, a) in alts.into_iter().enumerate() {
+        if dbg {
+            eprintln!("DEBUG alt {}: structural={} calls={} result={:?} fail_unit={:?} state_known={} esr={} queue={:?} out={:?} -> fits={}", k, a.structural, a.calls.len(), a.result.as_ref().map_err(|e| e.describe()), a.fail_unit, a.state_known, a.state.esr, a.state.queue.items, a.out.as_ref().map(|o| B(o.clone())), fits(&a));
+        }
+        if fits(&a) {
+            return a;
+        }
+    }
+    if dbg {
+        eprintln!("DEBUG observed: calls={} result={:?} esr={} queue={:?}", sim_calls, result, now.esr, now.queue.items);
+    }
+    p
+}
+
+fn predict_with(root: &MNode, st: &ModelState, step: &SendStep, reading: Reading, variant: u8) -> Pred {
+    let lazy = variant & (V_LAZY | V_LAZYC) != 0;
+    let keep = variant & V_KEEP != 0;
     let msg = &step.msg;
     let mav = !st.no_mav && st.outq.get(step.ctl as usize).copied().unwrap_or(false);
     let mut it = Interp {
@@ -852,12 +990,18 @@ pub fn predict(root: &MNode, st: &ModelState, step: &SendStep, reading: Reading)
         calls: Vec::new(),
         unit_text: vec![None; msg.units.len()],
         executed: Vec::new(),
+        lazy,
+        pending_sep: false,
+        opc_quiet: variant & V_OPCQ != 0,
+        opc_seen: false,
+        lazy_call: variant & V_LAZYC != 0,
     };
     let cap = match &step.fmt {
         FmtCfg::Array { cap } => Some(*cap),
         _ => None,
     };
     let mut result: Result<(), ExpErr> = Ok(());
+    let mut alt_wanted = 0u8;
     let mut fail_unit = None;
     let mut level: Vec<usize> = Vec::new();
     let mut resolved_units = 0;
@@ -884,16 +1028,24 @@ pub fn predict(root: &MNode, st: &ModelState, step: &SendStep, reading: Reading)
             let len_before = it.out.len();
             let st_before_unit = it.st.clone();
             let executed_before = it.executed.len();
+            let entered_before = it.calls.len() + it.executed.len();
             let end = match h {
                 H::Sim(id) => it.sim_unit(i, u, id),
                 H::Contrib(c) => it.contrib_unit(i, u, c),
             };
+            // a query that wrote nothing: whether it still gets a unit separator is not fixed
+            if u.query && !it.lazy && it.out.len() == len_before + (len_before > 0) as usize && it.calls.len() + it.executed.len() > entered_before {
+                alt_wanted |= V_LAZY;
+            }
             // fixed-capacity buffer: does everything this unit wrote fit?
             if let Some(cap) = cap {
                 if it.out.len() > cap {
                     // the unit separator is pushed before the handler is entered
                     let sep_fits = !(u.query && len_before > 0 && len_before + 1 > cap);
                     if !sep_fits {
+                        alt_wanted |= V_LAZY;
+                    }
+                    if !sep_fits && !it.lazy {
                         // response_unit() fails before the handler is entered: the unit has no
                         // effect and its handler is not invoked
                         if let Some(last) = it.calls.last() {
@@ -907,6 +1059,19 @@ pub fn predict(root: &MNode, st: &ModelState, step: &SendStep, reading: Reading)
                         result = Err(ExpErr::Code(-225));
                         fail_unit = Some(i);
                         break;
+                    }
+                    // (alternative framing: the handler was entered and the failure showed in its
+                    // first write)
+                    // a read-and-clear query whose answer was not delivered: consumed or not
+                    let read_and_clear = matches!(
+                        h,
+                        H::Contrib(Contrib::Esr) | H::Contrib(Contrib::StatReg(_, RegCmd::Event)) | H::Contrib(Contrib::SystErrNext) | H::Contrib(Contrib::SystErrAll)
+                    ) && u.query;
+                    if read_and_clear {
+                        alt_wanted |= V_KEEP;
+                        if keep {
+                            it.st = st_before_unit.clone();
+                        }
                     }
                     match &end {
                         // the handler returned its own error instead of the latched one
@@ -962,5 +1127,7 @@ pub fn predict(root: &MNode, st: &ModelState, step: &SendStep, reading: Reading)
         executed: it.executed,
         resolved_units,
         why_not_structural: it.why,
+        alts: Vec::new(),
+        alt_wanted: alt_wanted | if it.opc_seen { V_OPCQ } else { 0 },
     }
 }
